@@ -293,19 +293,12 @@ def run(ctx):
     # ---------------- R5 alphabet agreement
     r5 = chk.rule("C09.R5", "every character the wrapping stage can add to a candidate is stripped by the splitter",
                   "the stored text is the bare candidate, so it is found again")
-    sets = common.str_literal_sets(prog, sp)
-    for ck in prog.closures_of(sp):
-        sets += common.str_literal_sets(prog, ck)
+    sets = common.splitter_sets(prog, sp)
     meta = set("".join(s for s, bb in sets)) | {":"}
     # quoter outputs from its MIR constants
     q = c17.quoter_fn(prog)
     qb = c17.quoter_body(prog)
-    qout = set()
-    for (bb, t) in qb.calls():
-        if callee_name(t).endswith("String::push"):
-            v = strip_refs(qb.expr_operand(t["args"][1]))
-            if is_const(v, "char"):
-                qout.add(const_val(v))
+    qout = c17.quoter_outputs(prog)
     for ch in sorted(qout):
         key = "quoter:U+%04X" % ord(ch)
         if ch in meta:
